@@ -16,7 +16,9 @@ RULE = (
     'shift when the normal matrix has rank n-1 (checked).  Dataset level: planted / noisy / long G-series datasets '
     'through load, classify, set-zeta-grid, rise, recession (function and CLI), curve walker on rising_interval(_zeta), '
     'recession_interval(_zeta) and on the views average_recession_time / average_rising_depth (recomputed as '
-    'mean(offset + crossing) from the base tables).  Non-trivial: >= 3 intervals and >= 1 level crossed by >= 3 of '
+    'mean(offset + crossing) from the base tables); a third of the datasets continue as a multi-step session (grid step '
+    'changed, rise / recession run again): whether the repeated commands are refused or accepted, the tables must '
+    'still satisfy the walker.  Non-trivial: >= 3 intervals and >= 1 level crossed by >= 3 of '
     'them; distinct by overlap-graph signature / dataset digest.'
 )
 ASSUMPTIONS = [
@@ -36,6 +38,7 @@ REQUIRED = {
         'recession:least-squares-optimality-checked': 20,
         'rise:least-squares-optimality-checked': 20,
         'recession:view-levels-checked': 100,
+        'sessions-with-repeated-steps': 5,
     }
     for tier in ('quick', 'thorough')
 }
@@ -243,7 +246,7 @@ def run(ctx):
     ncli = ctx.share(s['cli'])
     for i in range(n):
         case = curves_corpus.make_case(rng, i)
-        curves_corpus.run_dataset(ctx, PROPERTY, case, 'cli' if i < ncli else 'function', i, nontrivial=nontrivial)
+        curves_corpus.run_dataset(ctx, PROPERTY, case, 'cli' if i < ncli else 'function', i, nontrivial=nontrivial, session=(i % 3 == 0))
     if s.get('field'):
         run_field(ctx)
 
@@ -291,4 +294,4 @@ def replay(ctx, case, module=None):
     elif case.get('kind') == 'field':
         ctx.rec.inconclusive_because('field cases are re-run by the thorough tier')
     else:
-        curves_corpus.run_dataset(ctx, PROPERTY, case, 'function', 0, nontrivial=nontrivial)
+        curves_corpus.run_dataset(ctx, PROPERTY, case, 'function', 0, nontrivial=nontrivial, session=bool(case.get('session')))
